@@ -181,7 +181,7 @@ Section LoopProofs.
 
   Lemma events_of_keys : forall (ts : list taskT) (rs : list (N * texecT)),
     List.length rs = List.length ts ->
-    map (fun ev : @event V => fst (fst ev)) (events_of ts rs) = map t_key ts.
+    map (@ev_key V) (events_of ts rs) = map t_key ts.
   Proof.
     induction ts as [|t ts IH]; intros [|r rs] Hl; simpl in *; try discriminate; auto.
     f_equal; apply IH; lia.
@@ -195,7 +195,7 @@ Section LoopProofs.
   (* the nodes whose bodies run in a step are exactly the pending tasks of the loop state *)
   Lemma step_event_keys : forall s env r evs env',
     stepB s env = (r, evs, env') ->
-    map (fun ev : @event V => fst (fst ev)) evs = map t_key (ls_next s).
+    map (@ev_key V) evs = map t_key (ls_next s).
   Proof.
     intros s env r evs env' H. rewrite step_unfold in H. inversion H; subst.
     rewrite events_of_keys.
@@ -227,7 +227,7 @@ Section LoopProofs.
   (* ------------------------------------------------------------------ *)
   (* C06 (a): interrupt-before nodes                                      *)
   (* ------------------------------------------------------------------ *)
-  Notation ekey := (fun ev : @event V => fst (fst ev)).
+  Notation ekey := (@ev_key V).
 
   Lemma iterate_log0 : forall bf af fuel (s : lstateT) env log,
     iterate zero fold getr pre exec bf af fuel s env log =
